@@ -15,7 +15,7 @@ import refstore
 A1 = Schema('A1', [
     Opt('int', 'i', '', 5), Opt('int', 'il', 'L', [b'1', b'2']), Opt('str', 's', '', b'd'), Opt('str', 'sl', 'L'),
     Opt('bool', 'b', '', False), Opt('float', 'f', '', 1.5), Opt('int', 'si', 'S'), Opt('str', 'ss', 'S'),
-    Opt('float', 'fl', 'L', [b'1.5']), Opt('bool', 'bl', 'L'),
+    Opt('float', 'fl', 'L', [b'1.5']), Opt('bool', 'bl', 'L'), Opt('str', 'sd', 'L', [b'a', b'b']),
     Opt('sec', 'mt', 'MT', sub=[Opt('int', 'x', '', 1), Opt('int', 'xl', 'L', [b'1'])]),
     Opt('sec', 'sec', '', sub=[Opt('int', 'x', '', 1)]),
     Opt('sec', 'm', 'M', sub=[Opt('int', 'x', '', 1)])])
@@ -42,6 +42,9 @@ def ops_alphabet(full=True):
     O.append(('set', 'str', b's', b'v', None))
     O.append(('set', 'str', b'sl', b'v', 1))
     O.append(('set', 'str', b'sl', b'w', 0))
+    O.append(('set', 'str', b'sd', b'a', 0))       # the text the default already holds at that index
+    O.append(('set', 'str', b'sd', b'b', 1))
+    O.append(('set', 'str', b's', b'd', None))
     O.append(('set', 'bool', b'b', 1, None))
     O.append(('set', 'float', b'f', 2.5, None))
     O.append(('oset', 'int', b'il', 9, 1))
